@@ -1,9 +1,278 @@
 /-
-Helper lemmas for `Pyiga.Slice` (faces of tensor-product index sets).
+Helper lemmas for `Pyiga.Slice` (faces of tensor-product index sets): membership in
+`itertools.product`, row-major order of the raveled face, the count, and the flip law
+(`sliceMulti_flip`, used by C10 and C14).  No Mathlib needed.
 -/
 import Pyiga.Model.Slice
 import Pyiga.Proofs.Index
 
 namespace Pyiga.Slice
+open Pyiga.Index
+
+/-- `I` picks one element from each factor list -/
+def Picks : List Nat → List (List Nat) → Prop
+  | [], [] => True
+  | a :: I, l :: ls => a ∈ l ∧ Picks I ls
+  | _, _ => False
+
+theorem mem_product : ∀ (ls : List (List Nat)) (I : List Nat), I ∈ product ls ↔ Picks I ls
+  | [], [] => by simp [product, Picks]
+  | [], _ :: _ => by simp [product, Picks]
+  | l :: ls, [] => by simp [product, Picks]
+  | l :: ls, a :: I => by
+    simp only [product, List.mem_flatMap, List.mem_map, List.cons.injEq, Picks]
+    constructor
+    · rintro ⟨b, hb, J, hJ, rfl, rfl⟩
+      exact ⟨hb, (mem_product ls J).1 hJ⟩
+    · rintro ⟨ha, hI⟩
+      exact ⟨a, ha, I, (mem_product ls I).2 hI, rfl, rfl⟩
+
+theorem flatMap_congr' {α β : Type} {l : List α} {f g : α → List β} (h : ∀ a ∈ l, f a = g a) :
+    l.flatMap f = l.flatMap g := by
+  induction l with
+  | nil => rfl
+  | cons a l ih =>
+    simp only [List.flatMap_cons]
+    rw [h a (by simp), ih (fun b hb => h b (by simp [hb]))]
+
+theorem length_product : ∀ (ls : List (List Nat)), (product ls).length = prod (ls.map List.length)
+  | [] => rfl
+  | l :: ls => by
+    simp only [product, List.length_flatMap, List.length_map, List.map_cons, Index.prod_cons,
+      length_product ls]
+    induction l with
+    | nil => simp
+    | cons a l ih => simp only [List.map_cons, List.sum_cons, ih, List.length_cons, Nat.succ_mul, Nat.add_comm]
+
+/-- every factor is strictly increasing with entries below the corresponding radix -/
+def Factors : List (List Nat) → List Nat → Prop
+  | [], [] => True
+  | l :: ls, m :: ms => l.Pairwise (· < ·) ∧ (∀ a ∈ l, a < m) ∧ Factors ls ms
+  | _, _ => False
+
+theorem factors_below : ∀ (ls : List (List Nat)) (ms : List Nat), Factors ls ms →
+    ∀ I, Picks I ls → Below I ms
+  | [], [], _, [], _ => trivial
+  | [], [], _, _ :: _, h => by simp [Picks] at h
+  | l :: ls, m :: ms, hf, a :: I, h => ⟨hf.2.1 a h.1, factors_below ls ms hf.2.2 I h.2⟩
+  | l :: ls, m :: ms, _, [], h => by simp [Picks] at h
+  | [], _ :: _, hf, _, _ => by simp [Factors] at hf
+  | _ :: _, [], hf, _, _ => by simp [Factors] at hf
+
+/-- **row-major order**: the raveled product of increasing factors is strictly increasing -/
+theorem product_toSeq_pairwise : ∀ (ls : List (List Nat)) (ms : List Nat), Factors ls ms →
+    ((product ls).map (fun I => toSeq I ms)).Pairwise (· < ·)
+  | [], [], _ => by simp [product]
+  | l :: ls, m :: ms, hf => by
+    have ih := product_toSeq_pairwise ls ms hf.2.2
+    have hb : ∀ J ∈ product ls, Below J ms :=
+      fun J hJ => factors_below ls ms hf.2.2 J ((mem_product ls J).1 hJ)
+    have e : (product (l :: ls)).map (fun I => toSeq I (m :: ms)) =
+        l.flatMap (fun a => (product ls).map (fun J => a * prod ms + toSeq J ms)) := by
+      simp only [product, List.map_flatMap, List.map_map]
+      apply flatMap_congr'
+      intro a _
+      apply List.map_congr_left
+      intro J hJ
+      exact toSeq_cons a m J ms (below_length (hb J hJ))
+    rw [e, List.pairwise_flatMap]
+    constructor
+    · intro a _
+      rw [List.pairwise_map] at ih ⊢
+      exact ih.imp (fun h => Nat.add_lt_add_left h _)
+    · apply hf.1.imp
+      intro a b hab x hx y hy
+      obtain ⟨J, hJ, rfl⟩ := List.mem_map.1 hx
+      obtain ⟨K, _, rfl⟩ := List.mem_map.1 hy
+      have hJlt := toSeq_lt J ms (hb J hJ)
+      calc a * prod ms + toSeq J ms < a * prod ms + prod ms := Nat.add_lt_add_left hJlt _
+        _ = (a + 1) * prod ms := by rw [Nat.add_mul, Nat.one_mul]
+        _ ≤ b * prod ms := Nat.mul_le_mul_right _ hab
+        _ ≤ b * prod ms + toSeq K ms := Nat.le_add_right _ _
+  | [], _ :: _, hf => by simp [Factors] at hf
+  | _ :: _, [], hf => by simp [Factors] at hf
+
+/-! ### the unflipped face -/
+
+theorem factors_range : ∀ (shape : List Nat), Factors (shape.map List.range) shape
+  | [] => trivial
+  | n :: shape => ⟨List.pairwise_lt_range, fun a ha => List.mem_range.1 ha, factors_range shape⟩
+
+theorem factors_set : ∀ (ls : List (List Nat)) (shape : List Nat) (ax i : Nat), Factors ls shape →
+    (∀ n, shape[ax]? = some n → i < n) → Factors (ls.set ax [i]) shape
+  | [], [], _, _, _, _ => trivial
+  | _ :: ls, m :: ms, 0, i, hf, hi => by
+    refine ⟨by simp, ?_, hf.2.2⟩
+    intro a ha
+    have : a = i := by simpa using ha
+    subst this
+    exact hi m rfl
+  | l :: ls, m :: ms, ax + 1, i, hf, hi =>
+    ⟨hf.1, hf.2.1, factors_set ls ms ax i hf.2.2 (fun n hn => hi n (by simpa using hn))⟩
+  | [], _ :: _, _, _, hf, _ => by simp [Factors] at hf
+  | _ :: _, [], _, _, hf, _ => by simp [Factors] at hf
+
+theorem picks_range : ∀ (shape I : List Nat), Picks I (shape.map List.range) ↔ Below I shape
+  | [], [] => by simp [Picks, Below]
+  | [], _ :: _ => by simp [Picks, Below]
+  | _ :: _, [] => by simp [Picks, Below]
+  | n :: shape, a :: I => by
+    simp only [List.map_cons, Picks, Below, List.mem_range, picks_range shape I]
+
+/-- members of the unflipped face: exactly the in-range multi-indices with coordinate `ax` equal `i` -/
+theorem picks_face : ∀ (shape : List Nat) (ax i : Nat) (I : List Nat) (n : Nat),
+    shape[ax]? = some n → i < n →
+    (Picks I ((shape.map List.range).set ax [i]) ↔ Below I shape ∧ I[ax]? = some i)
+  | [], _, _, _, _, h, _ => by simp at h
+  | _ :: _, _, _, [], _, _, _ => by simp [Picks, Below]
+  | m :: shape, 0, i, a :: I, n, h, hi => by
+    have hm : m = n := by simpa using h
+    subst hm
+    simp only [List.map_cons, List.set_cons_zero, Picks, Below, List.mem_singleton,
+      picks_range shape I, List.getElem?_cons_zero, Option.some.injEq]
+    constructor
+    · rintro ⟨rfl, hb⟩; exact ⟨⟨hi, hb⟩, rfl⟩
+    · rintro ⟨⟨_, hb⟩, rfl⟩; exact ⟨rfl, hb⟩
+  | m :: shape, ax + 1, i, a :: I, n, h, hi => by
+    have h' : shape[ax]? = some n := by simpa using h
+    simp only [List.map_cons, List.set_cons_succ, Picks, Below, List.mem_range,
+      picks_face shape ax i I n h' hi, List.getElem?_cons_succ]
+    exact ⟨fun ⟨h1, h2, h3⟩ => ⟨⟨h1, h2⟩, h3⟩, fun ⟨⟨h1, h2⟩, h3⟩ => ⟨h1, h2, h3⟩⟩
+
+theorem prod_face : ∀ (shape : List Nat) (ax i : Nat), ax < shape.length →
+    Index.prod (((shape.map List.range).set ax [i]).map List.length) = Index.prod (shape.eraseIdx ax)
+  | [], _, _, h => by simp at h
+  | m :: shape, 0, i, _ => by
+    simp [Function.comp_def]
+  | m :: shape, ax + 1, i, h => by
+    have h' : ax < shape.length := by simpa using h
+    simp only [List.map_cons, List.set_cons_succ, List.length_range, Index.prod_cons,
+      List.eraseIdx_cons_succ, prod_face shape ax i h']
+
+/-! ### flips -/
+
+/-- a flipped axis enumerates `n-1-c` where the unflipped one enumerates `c` -/
+def flipAxis (n : Nat) (f : Bool) (c : Nat) : Nat := if f then n - 1 - c else c
+
+/-- coordinate map between the unflipped and the flipped enumeration of a face:
+coordinate `k` becomes `shape[k] - 1 - c` on axes whose flag is set (axes without a flag are kept) -/
+def flipCoords : List Nat → List Bool → List Nat → List Nat
+  | n :: shape, f :: fs, c :: I => flipAxis n f c :: flipCoords shape fs I
+  | _, _, I => I
+
+theorem reverse_range_eq (n : Nat) : (List.range n).reverse = (List.range n).map (fun c => n - 1 - c) := by
+  rw [List.range_eq_range', List.reverse_range', ← List.range_eq_range']
+  simp
+
+theorem flipped_factor (n : Nat) (f : Bool) :
+    (if f then (List.range n).reverse else List.range n) = (List.range n).map (flipAxis n f) := by
+  cases f
+  · have : flipAxis n false = id := by funext c; simp [flipAxis]
+    rw [this]; simp
+  · simp only [if_true, reverse_range_eq]; rfl
+
+theorem applyFlip_nil (ds : List (List Nat)) : applyFlip ds [] = ds := by
+  cases ds <;> rfl
+
+theorem flipCoords_nil_flags (shape I : List Nat) : flipCoords shape [] I = I := by
+  cases shape <;> rfl
+
+theorem product_cons_map (l : List Nat) (g : Nat → Nat) (X : List (List Nat)) (F : List Nat → List Nat) :
+    (l.map g).flatMap (fun a => (X.map F).map (a :: ·)) =
+      (l.flatMap (fun c => X.map (c :: ·))).map (fun I => match I with
+        | c :: J => g c :: F J
+        | [] => []) := by
+  simp only [List.flatMap_map, List.map_flatMap, List.map_map]
+  rfl
+
+/-- without fixing an axis: flipping factors = mapping coordinates -/
+theorem product_applyFlip : ∀ (shape : List Nat) (fs : List Bool),
+    product (applyFlip (shape.map List.range) fs) = (product (shape.map List.range)).map (flipCoords shape fs)
+  | [], fs => by cases fs <;> simp [applyFlip, product, flipCoords]
+  | n :: shape, [] => by
+    rw [applyFlip_nil]
+    rw [List.map_congr_left (fun I _ => flipCoords_nil_flags (n :: shape) I), List.map_id']
+  | n :: shape, f :: fs => by
+    simp only [List.map_cons, applyFlip, product]
+    rw [flipped_factor, product_applyFlip shape fs, product_cons_map]
+    apply List.map_congr_left
+    intro I hI
+    obtain ⟨c, _, hc⟩ := List.mem_flatMap.1 hI
+    obtain ⟨J, _, rfl⟩ := List.mem_map.1 hc
+    rfl
+
+/-- with axis `ax` fixed to `i` and no flip on that axis -/
+theorem product_applyFlip_set : ∀ (shape : List Nat) (fs : List Bool) (ax i : Nat),
+    fs[ax]?.getD false = false →
+    product ((applyFlip (shape.map List.range) fs).set ax [i]) =
+      (product ((shape.map List.range).set ax [i])).map (flipCoords shape fs)
+  | [], fs, ax, i, _ => by cases fs <;> simp [applyFlip, product, flipCoords]
+  | n :: shape, [], ax, i, _ => by
+    rw [applyFlip_nil]
+    rw [List.map_congr_left (fun I _ => flipCoords_nil_flags (n :: shape) I), List.map_id']
+  | n :: shape, f :: fs, 0, i, h => by
+    have hf : f = false := by simpa using h
+    subst hf
+    simp only [List.map_cons, applyFlip, List.set_cons_zero, product, List.flatMap_cons,
+      List.flatMap_nil, List.append_nil, product_applyFlip shape fs, List.map_map]
+    apply List.map_congr_left
+    intro J _
+    simp [flipCoords, flipAxis]
+  | n :: shape, f :: fs, ax + 1, i, h => by
+    have h' : fs[ax]?.getD false = false := by simpa using h
+    simp only [List.map_cons, applyFlip, List.set_cons_succ, product]
+    rw [flipped_factor, product_applyFlip_set shape fs ax i h', product_cons_map]
+    apply List.map_congr_left
+    intro I hI
+    obtain ⟨c, _, hc⟩ := List.mem_flatMap.1 hI
+    obtain ⟨J, _, rfl⟩ := List.mem_map.1 hc
+    rfl
+
+theorem insertFalse_getElem (ax : Nat) (fl : List Bool) : (insertFalse ax fl)[ax]?.getD false = false := by
+  unfold insertFalse
+  by_cases h : ax ≤ fl.length
+  · rw [List.getElem?_append_right (by simp [h])]
+    simp [Nat.min_eq_left h]
+  · have hlen : (fl.take ax ++ false :: fl.drop ax).length ≤ ax := by
+      simp; omega
+    rcases Nat.lt_or_ge ax (fl.take ax ++ false :: fl.drop ax).length with h1 | h1
+    · omega
+    · rw [List.getElem?_eq_none h1]; rfl
+
+/-- `boundary_dofs` on a non-empty axis: side 0 is index `0`, side 1 is index `n-1` (`idx = -1` wrapped) -/
+theorem boundaryDofs_eq (N : List Nat) (bdax side n : Nat) (flip : Option (List Bool))
+    (h : N[bdax]? = some n) (hn : 0 < n)
+    (hflip : ∀ fl, flip = some fl → ((insertFalse bdax fl).drop N.length).any id = false) :
+    boundaryDofs N bdax side flip = .ok (sliceRavel bdax (if side = 0 then 0 else n - 1) N flip) := by
+  obtain ⟨hlt, hget⟩ := List.getElem?_eq_some_iff.1 h
+  have w0 : wrapIdx 0 n = some 0 := by
+    unfold wrapIdx; simp; omega
+  have w1 : wrapIdx (-1) n = some (n - 1) := by
+    unfold wrapIdx
+    have h1 : ((-1 : Int) + (n : Int)).toNat = n - 1 := by omega
+    have h2 : (0 : Int) ≤ -1 + (n : Int) ∧ (-1 : Int) + (n : Int) < (n : Int) := by omega
+    simp [h1, h2]
+  unfold boundaryDofs sliceIndices
+  rw [dif_pos hlt]
+  cases flip with
+  | none =>
+    by_cases hs : side = 0
+    · simp [hs, hget, w0]
+    · simp [hs, hget, w1]
+  | some fl =>
+    have hb := hflip fl rfl
+    by_cases hs : side = 0
+    · simp [hs, hget, w0, hb]
+    · simp [hs, hget, w1, hb]
+
+/-- **flip**: the `k`-th entry of the flipped face is the `k`-th entry of the unflipped face with
+the coordinates of the flipped axes reversed (`c ↦ shape[j]-1-c`); axis `ax` itself is never
+flipped (`flip[:ax] + (False,) + flip[ax:]`).  This is what makes `join_boundaries` pair
+coincident dofs (used by C14). -/
+theorem sliceMulti_flip (ax i : Nat) (shape : List Nat) (fl : List Bool) :
+    sliceMulti ax i shape (some fl) =
+      (sliceMulti ax i shape none).map (flipCoords shape (insertFalse ax fl)) := by
+  unfold sliceMulti axDofs
+  exact product_applyFlip_set shape (insertFalse ax fl) ax i (insertFalse_getElem ax fl)
 
 end Pyiga.Slice
